@@ -1437,6 +1437,6 @@ func c13Together(c *Ctx, bed *px.Bed, j c13Job) {
 		r.Inconc(fmt.Sprintf("together/%s: %d connections got no reply", j.Comp, none))
 	}
 	if wrong > 0 {
-		r.Violate(mon.Violation{Signature: "C13/compression/frame-decoded-with-another-connection's-bytes/" + j.Comp, Detail: fmt.Sprintf("8 connections negotiated %s and sent compressed system reads of ~100 KB at the same time; %d of %d were answered as if the connection had sent something else: %v", j.Comp, wrong, asked, first.Load()), Scenario: j.scenario()})
+		r.Violate(mon.Violation{Signature: "C13/compression/frame-not-decoded-as-this-connection-sent-it/" + j.Comp, Detail: fmt.Sprintf("8 connections negotiated %s and sent compressed system reads of ~100 KB at the same time; %d of %d were answered as if the connection had sent something else: %v", j.Comp, wrong, asked, first.Load()), Scenario: j.scenario()})
 	}
 }
